@@ -34,8 +34,11 @@ class Zoo:
             return '"s%s"' % self.lit()
         if r < 0.85:
             return "[ %s %s ]" % (self.lit(), self.lit())
-        if r < 0.92:
+        if r < 0.9:
             return "./p%s" % self.lit()
+        if r < 0.95:
+            # a multi-line indented string as operand / body / argument (absorbable term)
+            return "''\n      w%s\n\n        v\n    ''" % self.lit()
         return "{ z = %s; }" % self.lit()
 
     def gap(self, ind: str, *, allow_empty: bool = False, weights=None) -> str:
